@@ -57,6 +57,9 @@ fn main() {
         "worker" if args.len() >= 3 => {
             std::process::exit(monitor::worker::child_main(&args[2..]));
         }
+        "buildhash" if args.len() >= 5 => {
+            std::process::exit(checks::c11::buildhash_main(&args[2..]));
+        }
         "selftest" => {
             std::process::exit(checks::selftest());
         }
